@@ -339,8 +339,9 @@ def r6_summary_and_cleanup(ctx, rep):
              'of function run_tests, and Runner.run reports after the clean-up finally')
     fi = ctx.model.func('runner.run_tests')
     g = ctx.cfg(fi)
-    loops = [n for n in g.nodes if n.kind == 'for' and any(
-        (dotted(c.func) or '').endswith('TestResult') for b in n.stmt.body for c in calls_in(b))]
+    from .common import repeat_loop
+    _rl = repeat_loop(ctx, fi, g)
+    loops = [_rl] if _rl is not None else []
     summ = nodes_calling(g, lambda c: isinstance(c.func, ast.Attribute) and c.func.attr == 'summary'
                          and ctx.cg.is_formatter_receiver(c.func.value, fi))
     ok = bool(loops) and bool(summ)
@@ -393,7 +394,8 @@ def r7_run_continues(ctx, rep):
         r = g.reach(rl, edge_ok=lambda s, d, k: k != 'exc')
         ok = heads[0] in r and any((s, heads[0]) in g.back for s in r | set(rl))
         # and the entry that was run is removed before the loop continues (progress)
-        pops = nodes_calling(g, lambda c: isinstance(c.func, ast.Attribute) and c.func.attr == 'pop')
+        from .common import removal_nodes, queue_name
+        pops = removal_nodes(g, queue_name(fi) or 'layers_to_run', front_only=True)
         r2 = g.reach(rl, avoid=set(pops), edge_ok=lambda s, d, k: k != 'exc')
         ok = ok and heads[0] not in r2
     rep.check(ok, R, 'Runner.run_tests: loop continues with the next layer after run_layer returned',
@@ -416,63 +418,102 @@ def r8_optional_groups(ctx, rep, R='C04.R8'):
     from sa.variance import path_literals
     m = ctx.model
     sites = 0
+
+    def pattern_of(fi, mv, upto):
+        pat = None
+        for x in ast.walk(fi.node):
+            if isinstance(x, ast.Assign) and len(x.targets) == 1 and \
+                    isinstance(x.targets[0], ast.Name) and x.targets[0].id == mv and \
+                    isinstance(x.value, ast.Call) and x.lineno <= upto:
+                d = m.resolve_dotted(fi.module, dotted(x.value.func)) or ''
+                if d in ('re.match', 're.search', 're.fullmatch') and x.value.args and \
+                        isinstance(x.value.args[0], ast.Constant):
+                    pat = x.value.args[0].value
+                elif isinstance(x.value.func, ast.Attribute) and \
+                        x.value.func.attr in ('match', 'search', 'fullmatch'):
+                    c = fi.module.constants.get(dotted(x.value.func.value) or '')
+                    if isinstance(c, ast.Call) and c.args and isinstance(c.args[0], ast.Constant):
+                        pat = c.args[0].value
+        return pat
+
+    def str_only_uses(fnode, names, after=0):
+        bad = []
+        for use in ast.walk(fnode):
+            if isinstance(use, ast.Name) and use.id in names and \
+                    isinstance(use.ctx, ast.Load) and getattr(use, 'lineno', 0) >= after:
+                par = use._parent
+                sink = None
+                if isinstance(par, (ast.List, ast.Tuple)) and isinstance(par._parent, ast.Call) and \
+                        isinstance(par._parent.func, ast.Attribute) and \
+                        par._parent.func.attr in STR_ONLY_METHODS:
+                    sink = par._parent.func.attr
+                elif isinstance(par, ast.Call) and isinstance(par.func, ast.Attribute) and \
+                        par.func.attr in ('write',) and use in par.args:
+                    sink = 'write'
+                elif isinstance(par, ast.BinOp) and isinstance(par.op, ast.Add):
+                    sink = '+'
+                if sink:
+                    guarded = any((is_name_(e, use.id) and pos) or
+                                  (norm(e) == '%s is None' % use.id and not pos)
+                                  for e, pos in path_literals(use, fnode))
+                    if not guarded:
+                        bad.append((use.id, sink))
+        return bad
+
     for fi in m.all_functions():
         for n in ast.walk(fi.node):
-            if not (isinstance(n, ast.Assign) and isinstance(n.value, ast.Call) and
-                    isinstance(n.value.func, ast.Attribute) and n.value.func.attr == 'groups' and
-                    isinstance(n.value.func.value, ast.Name)):
-                continue
-            mv = n.value.func.value.id
-            pat = None
-            for x in ast.walk(fi.node):
-                if isinstance(x, ast.Assign) and len(x.targets) == 1 and \
-                        isinstance(x.targets[0], ast.Name) and x.targets[0].id == mv and \
-                        isinstance(x.value, ast.Call) and x.lineno <= n.lineno:
-                    d = m.resolve_dotted(fi.module, dotted(x.value.func)) or ''
-                    if d in ('re.match', 're.search', 're.fullmatch') and x.value.args and \
-                            isinstance(x.value.args[0], ast.Constant):
-                        pat = x.value.args[0].value
-                    elif isinstance(x.value.func, ast.Attribute) and \
-                            x.value.func.attr in ('match', 'search', 'fullmatch'):
-                        c = fi.module.constants.get(dotted(x.value.func.value) or '')
-                        if isinstance(c, ast.Call) and c.args and isinstance(c.args[0], ast.Constant):
-                            pat = c.args[0].value
-            if pat is None or not isinstance(n.targets[0], (ast.Tuple, ast.List)):
-                continue
-            og = optional_groups(pat)
-            if og is None:
-                rep.undecide(R, '%s: %r' % (fi.qualname, pat), 'cannot parse the pattern')
-                continue
-            sites += 1
-            ng, opt = og
-            names = [e.id if isinstance(e, ast.Name) else None for e in n.targets[0].elts]
-            maybe_none = {nm for i, nm in enumerate(names, 1) if nm and i in opt}
-            bad = []
-            if len(names) != ng:
-                bad.append('%d names unpack %d groups' % (len(names), ng))
-            for use in ast.walk(fi.node):
-                if isinstance(use, ast.Name) and use.id in maybe_none and \
-                        isinstance(use.ctx, ast.Load) and use.lineno >= n.lineno:
-                    par = use._parent
-                    sink = None
-                    if isinstance(par, (ast.List, ast.Tuple)) and isinstance(par._parent, ast.Call) and \
-                            isinstance(par._parent.func, ast.Attribute) and \
-                            par._parent.func.attr in STR_ONLY_METHODS:
-                        sink = par._parent.func.attr
-                    elif isinstance(par, ast.Call) and isinstance(par.func, ast.Attribute) and \
-                            par.func.attr in ('write',) and use in par.args:
-                        sink = 'write'
-                    elif isinstance(par, ast.BinOp) and isinstance(par.op, ast.Add):
-                        sink = '+'
-                    if sink:
-                        guarded = any((is_name_(e, use.id) and pos) or
-                                      (norm(e) == '%s is None' % use.id and not pos)
-                                      for e, pos in path_literals(use, fi.node))
-                        if not guarded:
-                            bad.append('group variable %r (optional in %r) reaches %s' % (use.id, pat, sink))
-            rep.check(not bad, R, '%s: groups of %r are all set when used as str' % (fi.qualname, pat[:40]),
-                      '; '.join(sorted(set(bad))), key='groups:%s:%s' % (fi.qualname, pat[:40]),
-                      func=fi.qualname, where=ctx.where(fi, n))
+            # form 1:  a, b, c = m.groups()
+            if isinstance(n, ast.Assign) and isinstance(n.value, ast.Call) and \
+                    isinstance(n.value.func, ast.Attribute) and n.value.func.attr == 'groups' and \
+                    isinstance(n.value.func.value, ast.Name) and \
+                    isinstance(n.targets[0], (ast.Tuple, ast.List)):
+                pat = pattern_of(fi, n.value.func.value.id, n.lineno)
+                if pat is None:
+                    continue
+                og = optional_groups(pat)
+                if og is None:
+                    rep.undecide(R, '%s: %r' % (fi.qualname, pat), 'cannot parse the pattern')
+                    continue
+                sites += 1
+                ng, opt = og
+                names = [e.id if isinstance(e, ast.Name) else None for e in n.targets[0].elts]
+                maybe_none = {nm for i, nm in enumerate(names, 1) if nm and i in opt}
+                bad = ['%d names unpack %d groups' % (len(names), ng)] if len(names) != ng else []
+                bad += ['group variable %r (optional in %r) reaches %s' % (v, pat, sk)
+                        for v, sk in str_only_uses(fi.node, maybe_none, n.lineno)]
+                rep.check(not bad, R, '%s: groups of %r are all set when used as str' % (fi.qualname, pat[:40]),
+                          '; '.join(sorted(set(bad))), key='groups:%s:%s' % (fi.qualname, pat[:40]),
+                          func=fi.qualname, where=ctx.where(fi, n))
+            # form 2:  helper(x, *m.groups())
+            if isinstance(n, ast.Call):
+                st = [a for a in n.args if isinstance(a, ast.Starred) and isinstance(a.value, ast.Call)
+                      and isinstance(a.value.func, ast.Attribute) and a.value.func.attr == 'groups'
+                      and isinstance(a.value.func.value, ast.Name)]
+                if not st:
+                    continue
+                pat = pattern_of(fi, st[0].value.func.value.id, n.lineno)
+                r = ctx.cg.resolve_call(n, fi)
+                if pat is None or not isinstance(r, list) or len(r) != 1:
+                    continue
+                og = optional_groups(pat)
+                if og is None:
+                    continue
+                sites += 1
+                ng, opt = og
+                callee = r[0]
+                ps = [a.arg for a in callee.node.args.args]
+                if ps and ps[0] in ('self', 'cls'):
+                    ps = ps[1:]
+                start = n.args.index(st[0])
+                bound = ps[start:start + ng]
+                maybe_none = {nm for i, nm in enumerate(bound, 1) if i in opt}
+                bad = ['%d parameters receive %d groups' % (len(bound), ng)] if len(bound) != ng else []
+                bad += ['group parameter %r (optional in %r) reaches %s in %s' % (v, pat, sk, callee.qualname)
+                        for v, sk in str_only_uses(callee.node, maybe_none)]
+                rep.check(not bad, R, '%s: groups of %r passed to %s are all set when used as str'
+                          % (fi.qualname, pat[:40], callee.name), '; '.join(sorted(set(bad))),
+                          key='groups:%s:%s' % (fi.qualname, pat[:40]), func=fi.qualname,
+                          where=ctx.where(fi, n))
     rep.floor(R, sites, 2, 'regex group unpacking sites')
 
 
